@@ -10,9 +10,12 @@ PROP = {'gen': ['base64'],
  'level_text': 'Coq theorems over an executable model of Base64Encoder/Base64Decoder: encoder output = RFC 4648 text for every input and '
                'write partition; decoder returns the original bytes for every read schedule and every sequence of destination sizes; '
                'non-multiple-of-4 text is an error; no panic / termination for arbitrary bytes. Tables are regenerated from the source '
-               'each run and the table lemmas re-checked; the model is tied to the code by a differential run.',
+               'each run and the table lemmas re-checked; the model is tied to the code by a differential run that also observes the '
+               'bytes delivered before an error (they must be a prefix of the decoding of the complete 4-character groups; checked '
+               'per case, no theorem).',
  'level_note': 'Trusted: Coq kernel + vm_compute; translate/tables.py; hand-written model validated by the correspondence run; reader '
-               'contract (0 only at EOF); io errors outside the model. No axioms (Print Assumptions: closed).',
+               'contract (0 only at EOF); io errors outside the model. Defect found and fixed: short reads of the inner reader were '
+               'treated as malformed input (fix d7fde13). No open known finding. No axioms (Print Assumptions: closed).',
  'technique': 'Coq proof (induction, refinement to a pure group decoder, finite sweeps for bit operations) + regenerated tables + '
               'model/implementation correspondence',
  'design_ref': 'DESIGN.md 6.14',
@@ -29,4 +32,5 @@ PROP = {'gen': ['base64'],
                   'validates the model, it is not the theorem'],
  'assumptions': ['the inner reader signals end of input only by returning 0 and otherwise returns between 1 and the requested number of '
                  'bytes; io errors of the inner reader/writer are outside the model',
-                 'callers drain the decoder until a read returns 0 or an error']}
+                 'callers drain the decoder until a read returns 0 or an error; bytes a failing read call had already copied into the '
+                 "caller's buffer are not observed"]}
